@@ -1711,3 +1711,76 @@ Proof.
     rewrite (nth_nth_error cs _ c0 dummy E1) in Ex'. rewrite (nth_nth_error ds _ d0 dummy E2) in Ey'. subst c0 d0.
     pose proof (leaf_pair_pos x' y' x E3 Nd). cbn [size]. lia.
 Qed.
+
+Lemma zsum_map_nonneg : forall {A} (f : A -> Z) l, (forall x, 0 <= f x) -> 0 <= zsum (map f l).
+Proof. intros A f l H. apply zsum_nonneg. apply Forall_forall. intros y Hy. apply in_map_iff in Hy. destruct Hy as (x & <- & _). apply H. Qed.
+
+Lemma good_list_fixed : forall cs ds s, Forall Pgood cs ->
+  (let M := map (fun c => map (fun d => initU c d) ds) cs in
+   let n := length cs in
+   let m := length ds in
+   let pairs := map (fun i => match mget M i i with Some (Some s) => Some s | _ => None end) (seq 0 (Nat.min n m)) in
+   let extra :=
+       (if Nat.ltb m n
+        then zsum (map (fun i => remove_cost (nth i cs dummy) 1) (seq (remove_from_pos n m) (n - remove_from_pos n m)))
+        else 0) +
+       (if Nat.ltb n m
+        then zsum (map (fun j => insert_cost (nth j ds dummy) 1) (seq (insert_from_pos n m) (m - insert_from_pos n m)))
+        else 0) in
+   match all_some_l pairs with
+   | Some l => Some (SFixed l extra)
+   | None => None
+   end) = Some s -> Good s.
+Proof.
+  intros cs ds s IH H. cbn zeta in H. destruct (all_some_l _) as [l|] eqn:El; [|discriminate]. injection H as <-.
+  apply good_fixed.
+  - apply Forall_forall. intros x Hx. destruct (In_nth_error _ _ Hx) as [i Ei].
+    pose proof (all_some_l_nth _ _ _ _ El Ei) as H1. apply nth_error_map_seq in H1. destruct H1 as [_ H1].
+    destruct (mget _ i i) as [[s'|]|] eqn:Em; try discriminate. injection H1 as ->.
+    destruct (mget_init_matrix _ _ _ _ _ Em) as (c0 & d0 & E1 & _ & E3).
+    rewrite Forall_forall in IH. apply (IH c0 (nth_error_In _ _ E1) d0 _ (eq_sym E3)).
+  - assert (A : forall (f : nat -> Z) l0, (forall i, 0 <= f i) -> 0 <= zsum (map f l0)) by (intros; apply zsum_map_nonneg; assumption).
+    assert (R : forall i, 0 <= remove_cost (nth i cs dummy) 1) by (intros; rewrite remove_cost_eq; pose proof (size_nonneg (nth i cs dummy)); lia).
+    assert (I : forall j, 0 <= insert_cost (nth j ds dummy) 1) by (intros; rewrite insert_cost_eq; pose proof (size_nonneg (nth j ds dummy)); lia).
+    destruct (Nat.ltb (length ds) (length cs)), (Nat.ltb (length cs) (length ds));
+      try pose proof (A _ (seq (remove_from_pos (length cs) (length ds)) (length cs - remove_from_pos (length cs) (length ds))) R);
+      try pose proof (A _ (seq (insert_from_pos (length cs) (length ds)) (length ds - insert_from_pos (length cs) (length ds))) I); lia.
+Qed.
+
+(* C04, closing induction: the edit of every pair of trees of the modelled fragment (scalars, strings, nested lists under
+   all list options, key/value pairs) satisfies the strict contract, at every depth the machine is run with *)
+Theorem initU_good : forall a, Pgood a.
+Proof.
+  apply tree_rect'.
+  - intros x b s H. cbn [initU] in H. destruct (const_of (Leaf x) b) as [c|] eqn:Ec.
+    + injection H as <-. apply good_const. apply (const_of_nonneg _ _ _ Ec).
+    + destruct b as [y| | | |]; try discriminate. destruct (lk x); try discriminate; destruct (lk y); try discriminate.
+      injection H as <-. apply good_str.
+  - intros ale alsl cs IH b s H. cbn [initU] in H. destruct (const_of (Lst ale alsl cs) b) as [c|] eqn:Ec.
+    + injection H as <-. apply good_const. apply (const_of_nonneg _ _ _ Ec).
+    + destruct (list_dispatch (Lst ale alsl cs) b) eqn:Ed; try discriminate.
+      * apply (good_list_fixed cs (match b with Lst _ _ ds => ds | _ => [] end) s IH H).
+      * apply (good_list_ed ale alsl cs b penalty s IH Ed H).
+  - intros ake k v IHk IHv b s H. cbn [initU] in H. destruct (const_of (Kvp ake k v) b) as [c|] eqn:Ec.
+    + injection H as <-. apply good_const. apply (const_of_nonneg _ _ _ Ec).
+    + destruct b as [y| |ake' k' v'| |]; try discriminate.
+      assert (Hk : forall x, (if node_eqb k k' then Some (SConst 0) else initU k k') = Some x -> Good x).
+      { intros x Hx. destruct (node_eqb k k'); [injection Hx as <-; apply good_const; lia|apply (IHk k' x Hx)]. }
+      assert (Hv : forall x, (if node_eqb v v' then Some (SConst 0) else initU v v') = Some x -> Good x).
+      { intros x Hx. destruct (node_eqb v v'); [injection Hx as <-; apply good_const; lia|apply (IHv v' x Hx)]. }
+      destruct (if node_eqb k k' then _ else _) as [x|]; [|discriminate].
+      destruct (if node_eqb v v' then _ else _) as [y|]; [|discriminate]. injection H as <-.
+      apply good_sum. constructor; [apply Hk; reflexivity|]. constructor; [apply Hv; reflexivity|constructor].
+  - intros amk cs IH b s H. cbn [initU const_of] in H. discriminate.
+  - intros cs IH b s H. cbn [initU const_of] in H. discriminate.
+Qed.
+
+Theorem initU_contract : forall a b s, initU a b = Some s -> Contract (UM (sheight s)) s.
+Proof. intros a b s H. destruct (initU_good a b s H) as [_ Hc]. apply (Hc (sheight s) (le_n _)). Qed.
+
+(* the fragment is not empty: nested lists with strings, all three classes below the root *)
+Example initU_instance :
+  exists s, initU (Lst true true [Leaf (Build_leaf KStr [97;98] 0 0); Lst true true [Leaf (Build_leaf KInt [49] 1 0)]])
+                  (Lst true true [Leaf (Build_leaf KStr [97;99] 0 0); Lst true true [Leaf (Build_leaf KInt [50] 2 0)];
+                                  Leaf (Build_leaf KNull [] 0 0)]) = Some s /\ sheight s = 2%nat /\ bndU s = (1, 12).
+Proof. eexists. split; [vm_compute; reflexivity|]. split; reflexivity. Qed.
